@@ -43,6 +43,15 @@ type quxW struct{ cause error }
 type bazW struct{ cause error }
 type zedW struct{ cause error }
 
+// The wrapper type also extends its identity with a type key marker
+// (errbase.TypeKeyMarker), like the library's domain wrapper: renamed
+// *and* key-marked.
+func (w *fooW) ErrorKeyMarker() string { return "marker" }
+func (w *barW) ErrorKeyMarker() string { return "marker" }
+func (w *quxW) ErrorKeyMarker() string { return "marker" }
+func (w *bazW) ErrorKeyMarker() string { return "marker" }
+func (w *zedW) ErrorKeyMarker() string { return "marker" }
+
 func (w *fooW) Error() string { return w.cause.Error() }
 func (w *fooW) Unwrap() error { return w.cause }
 func (w *barW) Error() string { return w.cause.Error() }
@@ -376,19 +385,43 @@ func TestExhaustive(t *testing.T) {
 			}
 		}
 	}
-	// Registering the same target twice is rejected.
-	st.Eval()
-	func() {
-		errbase.VerifInstallRegistry(base)
-		defer errbase.VerifInstallRegistry(base)
-		p := obs.Try(func() {
-			errbase.RegisterTypeMigration(pkg, "*c17.fooErr", &barErr{})
-			errbase.RegisterTypeMigration(pkg, "*c17.otherErr", &barErr{})
-		})
-		if p == "" {
-			pbt.Fail(t, exProp, st, &pbt.Case{}, &pbt.Failure{Sig: "registering the same migration target twice is not rejected"})
-		}
-	}()
+	// Registering the same target twice is rejected, whatever was
+	// registered in between.
+	dupSeqs := [][][2]string{
+		{{"foo", "bar"}, {"other", "bar"}},
+		{{"foo", "bar"}, {"foo", "bar"}},
+		{{"foo", "bar"}, {"bar", "qux"}, {"bar", "qux"}},
+		{{"foo", "bar"}, {"zed", "qux"}, {"bar", "qux"}},
+		{{"bar", "qux"}, {"foo", "bar"}, {"foo", "qux"}},
+		{{"foo", "bar"}, {"bar", "baz"}, {"baz", "zed"}, {"foo", "zed"}},
+	}
+	otherName := names{leaf: "*c17.otherErr", wrap: "*c17.otherW"}
+	for _, seq := range dupSeqs {
+		st.Eval()
+		func() {
+			errbase.VerifInstallRegistry(base)
+			defer errbase.VerifInstallRegistry(base)
+			get := func(n string) names {
+				if n == "other" {
+					return otherName
+				}
+				return byName[n]
+			}
+			for i, rn := range seq {
+				p := obs.Try(func() { errbase.RegisterTypeMigration(pkg, get(rn[0]).leaf, byName[rn[1]].newLeaf("")) })
+				last := i == len(seq)-1
+				if last && p == "" {
+					c := &pbt.Case{}
+					c.SetList("history", []string{"register:" + label(seq)})
+					pbt.Fail(t, exProp, st, c, &pbt.Failure{Sig: "registering the same migration target twice is not rejected: " + label(seq)})
+				}
+				if !last && p != "" {
+					t.Fatalf("setup: registration %v of %v panicked: %s", rn, seq, p)
+				}
+			}
+		}()
+		st.NT(uint64(len(label(seq)))<<32|uint64(len(seq)), func() interface{} { return "duplicate target: " + label(seq) })
+	}
 	st.Notes = append(st.Notes, fmt.Sprintf("%d code versions (registration orders of chained renames included): %s", len(versions), func() string {
 		var n []string
 		for _, v := range versions {
